@@ -128,7 +128,7 @@ func c19Run(ops []nlOp, rep *Report, idx int, shared bool) (ap.NaturalLanguageVa
 }
 
 func runC19(seed int64, n int, tier string, outDir string) (*Report, error) {
-	rep := &Report{Rule: "histories of Set/Append/Add/Get over tags {-,en,fr} and texts {a,bb,empty}: exhaustive up to a length bound (2 quick, 4 thorough) plus random histories up to length 14 over a larger alphabet; equality: all ordered pairs of lists without repeated tags over 3 tags x 2 texts (6241 pairs, natively exhaustive; a sample goes through Coq in quick, all in thorough); non-trivial = history contains a Set or Append and a Get / pair of non-empty lists; distinct by canonical term"}
+	rep := &Report{Rule: "histories of Set/Append/Add/Get over tags {-,en,fr} and texts {a,bb,empty}: exhaustive up to a length bound (2 quick, 4 thorough) plus random histories up to length 14 over a larger alphabet; equality: all ordered pairs of lists without repeated tags over 3 tags x 3 texts, for two families of tags and texts (plain; one a prefix of another), natively exhaustive; a sample goes through Coq in quick, all in thorough); non-trivial = history contains a Set or Append and a Get / pair of non-empty lists; distinct by canonical term"}
 	g := NewGen(seed, "C19")
 	hdr := "From AP.Model Require Import Prelude Vocab Nlv.\n" +
 		"Definition ok (c : list nop * (nl * list (option bytes))) : bool :=\n" +
@@ -240,6 +240,10 @@ func runC19(seed int64, n int, tier string, outDir string) (*Report, error) {
 			used[t] = false
 		}
 	}
+	build(ap.NaturalLanguageValues{}, map[string]bool{})
+	// a second family: tags and texts of which one is a prefix / suffix of another, so that any comparison working on
+	// glued tag+text strings (or on lengths) confuses different pairs: {e: nx} against {en: x}, {-: ""} against {"": -}
+	tags, vals = []string{"e", "en", "-"}, []string{"x", "nx", "n"}
 	build(ap.NaturalLanguageValues{}, map[string]bool{})
 	samePairs := func(a, b ap.NaturalLanguageValues) bool {
 		if len(a) != len(b) {
